@@ -292,6 +292,7 @@ type Engine struct {
 	inlined   map[string]bool
 	usedContracts map[string]bool
 	fieldIDs  map[string]uint64
+	loopWhere *loopEvalWhere
 	globalsRO map[*ssa.Global][]*Term // immutable globals with init-time values
 	unfoldFuel int
 	specUF    map[string]bool
@@ -820,6 +821,16 @@ func (e *Engine) assumeWF(st *State, ts []*Term, t types.Type) {
 // has not happened yet (values from the pre-state: not one made during the call).
 func (e *Engine) assumeNotFuture(st *State, ts []*Term, t types.Type) {
 	for i, l := range leavesOf(t) {
+		if (l.kind == LRef || l.kind == LMap || l.kind == LChan) && !ts[i].IsConst() && ts[i].sort == RefSort {
+			// the same for objects, maps and channels: a reference obtained now does not name
+			// an object created later (one read from the pre-state heap: not one created during the call)
+			lim := e.allocSeq
+			if ts[i].op == "uf" && strings.HasPrefix(ts[i].name, "M0.") {
+				lim = callAllocBase
+			}
+			st.assume(BVUle(ts[i], BVConstU(0x80000000+lim, RefSort)))
+			continue
+		}
 		if l.kind != LRegion || ts[i].IsConst() {
 			continue
 		}
@@ -1468,73 +1479,126 @@ func mergeStates(sts []*State) (*State, []*Term) {
 	for i, s := range sts {
 		conds[i] = pcDelta(s.pc, anc)
 	}
-	// fold from the last: ite(c1, s1, ite(c2, s2, ... sN))
-	res := sts[len(sts)-1].clone()
-	for i := len(sts) - 2; i >= 0; i-- {
-		a := sts[i]
-		c := conds[i]
-		n := res
-		for k, av := range a.cells {
-			bv, ok := n.cells[k]
-			if !ok {
+	// The path conditions are mutually exclusive and (assumed below) exhaustive, so a merged
+	// value is a choice between the DISTINCT values the states hold: states that agree on a value
+	// form one alternative (ite(c1 or c3, x, ite(c2, y, z))), the last state's value is the default.
+	// Merged values then nest as deep as there are different values, not as there are paths.
+	n := len(sts)
+	last := sts[n-1]
+	res := last.clone()
+	groupTerms := func(vals []*Term) *Term {
+		def := vals[n-1]
+		var order []*Term
+		by := map[int][]*Term{}
+		for i := 0; i < n-1; i++ {
+			v := vals[i]
+			if v == def {
 				continue
 			}
-			if len(av) != len(bv) {
+			if _, ok := by[v.id]; !ok {
+				order = append(order, v)
+			}
+			by[v.id] = append(by[v.id], conds[i])
+		}
+		out := def
+		for k := len(order) - 1; k >= 0; k-- {
+			v := order[k]
+			out = Ite(Or(by[v.id]...), v, out)
+		}
+		return out
+	}
+	for k, lv := range last.cells {
+		ok := true
+		for _, s := range sts[:n-1] {
+			if sv, has := s.cells[k]; !has {
+				ok = false
+				break
+			} else if len(sv) != len(lv) {
 				panic("cell shape mismatch at merge")
 			}
-			same := true
-			for j := range av {
-				if av[j] != bv[j] {
-					same = false
-					break
-				}
+		}
+		if !ok {
+			delete(res.cells, k)
+			continue
+		}
+		nv := make([]*Term, len(lv))
+		vals := make([]*Term, n)
+		for j := range lv {
+			for i, s := range sts {
+				vals[i] = s.cells[k][j]
 			}
-			if same {
+			nv[j] = groupTerms(vals)
+		}
+		res.cells[k] = nv
+	}
+	for k, lc := range last.clos {
+		for _, s := range sts[:n-1] {
+			if sc, ok := s.clos[k]; ok && sc != lc {
+				delete(res.clos, k)
+				break
+			}
+		}
+	}
+	names := map[string]bool{}
+	for _, s := range sts {
+		for k := range s.mems {
+			names[k] = true
+		}
+	}
+	for k := range names {
+		ms := make([]*Mem, n)
+		var shape *Mem
+		for _, s := range sts {
+			if m, ok := s.mems[k]; ok {
+				shape = m
+				break
+			}
+		}
+		for i, s := range sts {
+			if m, ok := s.mems[k]; ok {
+				ms[i] = m
+			} else {
+				ms[i] = NewBaseMem(k, shape.ksort, shape.sort, "M0."+k)
+			}
+		}
+		def := ms[n-1]
+		var order []*Mem
+		by := map[*Mem][]*Term{}
+		for i := 0; i < n-1; i++ {
+			if ms[i] == def {
 				continue
 			}
-			nv := make([]*Term, len(av))
-			for j := range av {
-				nv[j] = Ite(c, av[j], bv[j])
+			if _, ok := by[ms[i]]; !ok {
+				order = append(order, ms[i])
 			}
-			n.cells[k] = nv
+			by[ms[i]] = append(by[ms[i]], conds[i])
 		}
-		for k := range n.cells {
-			if _, ok := a.cells[k]; !ok {
-				delete(n.cells, k)
-			}
+		out := def
+		for q := len(order) - 1; q >= 0; q-- {
+			out = MergeMem(Or(by[order[q]]...), order[q], out)
 		}
-		for k, ac := range a.clos {
-			if bc, ok := n.clos[k]; ok && bc != ac {
-				delete(n.clos, k)
-			}
+		res.mems[k] = out
+	}
+	gnames := map[string]Sort{}
+	for _, s := range sts {
+		for k, g := range s.ghost {
+			gnames[k] = g.sort
 		}
-		for k, am := range a.mems {
-			bm, ok := n.mems[k]
-			if !ok {
-				bm = NewBaseMem(k, am.ksort, am.sort, "M0."+k)
-			}
-			n.mems[k] = MergeMem(c, am, bm)
-		}
-		for k, bm := range n.mems {
-			if _, ok := a.mems[k]; !ok {
-				am := NewBaseMem(k, bm.ksort, bm.sort, "M0."+k)
-				n.mems[k] = MergeMem(c, am, bm)
+	}
+	for k, so := range gnames {
+		vals := make([]*Term, n)
+		for i, s := range sts {
+			if g, ok := s.ghost[k]; ok {
+				vals[i] = g
+			} else {
+				vals[i] = Var("ghost0."+k, so)
 			}
 		}
-		for k, ag := range a.ghost {
-			bg, ok := n.ghost[k]
-			if !ok {
-				bg = Var("ghost0."+k, ag.sort)
-			}
-			n.ghost[k] = Ite(c, ag, bg)
-		}
-		for k, bg := range n.ghost {
-			if _, ok := a.ghost[k]; !ok {
-				n.ghost[k] = Ite(c, Var("ghost0."+k, bg.sort), bg)
-			}
-		}
-		if len(a.defers) > len(n.defers) {
-			n.defers = a.defers
+		res.ghost[k] = groupTerms(vals)
+	}
+	for _, s := range sts {
+		if len(s.defers) > len(res.defers) {
+			res.defers = s.defers
 		}
 	}
 	res.pc = anc
